@@ -47,6 +47,7 @@ class C09(Property):
              (LOC_PY, "location_bridges_origin"),
              ("antismash/common/secmet/features/feature.py", "Feature.get_sub_location_from_protein_coordinates"),
              ("antismash/common/secmet/features/feature.py", "Feature.from_biopython"),
+             ("antismash/common/secmet/features/cds_feature.py", "CDSFeature.from_biopython"),
              ("antismash/common/secmet/features/feature.py", "Feature.to_biopython"),
              ("antismash/common/secmet/features/prepeptide.py", "Prepeptide.to_biopython"),
              ("antismash/modules/tta/tta.py", "TTAResults.new_feature_from_other"),
@@ -333,6 +334,19 @@ class C09(Property):
                         out["feature_qual"] = back.qualifiers.get("codon_start")
                     except Exception as exc:  # pylint: disable=broad-except
                         out["feature_err"] = _err(exc)["err"]
+                    # a gene read from GenBank with codon_start takes the CDSFeature path (class hierarchy:
+                    # CDSFeature.from_biopython, then Feature.from_biopython): shifted exactly once
+                    if "feature_shifted" in out:
+                        from antismash.common.secmet.features import CDSFeature
+                        shifted_len = sum(hi - lo for lo, hi, _ in out["feature_shifted"]["parts"])
+                        bio_cds = SeqFeature(common.make_location(case["loc"]), type="CDS",
+                                             qualifiers={"codon_start": [str(case["cs"])], "locus_tag": ["gene"],
+                                                         "translation": ["M" * max(shifted_len // 3, 1)]})
+                        try:
+                            cds = CDSFeature.from_biopython(bio_cds)
+                            out["cds_shifted"] = common.location_json(cds.location)
+                        except Exception as exc:  # pylint: disable=broad-except
+                            out["cds_err"] = _err(exc)["err"]
             elif kind == "prepeptide":
                 from antismash.common.secmet.features.prepeptide import Prepeptide
                 pre = Prepeptide(location, "cls", "C", "locus", "tool", leader="L" * case["leader"],
@@ -554,6 +568,10 @@ class C09(Property):
                 if spec_ok and "feature_shifted" in obs:
                     # Feature.from_biopython shifts; to_biopython undoes (same guard as the model's undo)
                     spec_ok = obs["feature_shifted"] == obs["loc"]
+                    if spec_ok and "cds_shifted" in obs and obs["cds_shifted"] != obs["loc"]:
+                        spec_ok = False
+                        detail = (f"CDSFeature.from_biopython with codon_start={case['cs']} places the gene at "
+                                  f"{obs['cds_shifted']}, the frameshifted location is {obs['loc']}")
                     if "ok" in back:
                         spec_ok = spec_ok and back["ok"] == loc and obs.get("feature_restored") == loc \
                             and obs.get("feature_qual") == [str(case["cs"])]
